@@ -1,5 +1,5 @@
 (* C02 — emission follows the configured schedule, independent of block cadence. *)
-From C4E Require Import Base Minter MinterProofs MinterWalk.
+From C4E Require Import Base Minter MinterProofs MinterWalk MinterFaults.
 Open Scope Z_scope.
 
 (* no block mints a negative amount, and what a block mints is exactly the growth of
@@ -138,3 +138,47 @@ Example C02_example :
   | _ => False end
   /\ match mint p g 1500000000000 with Ok (a, s, h) => a = 1000 /\ s_seq s = 2 | _ => False end.
 Proof. vm_compute. repeat split. Qed.
+
+(* a node whose bank refuses the minter's calls in some blocks (BeginBlocker panics on the error; a block whose begin-blocker
+   panics is never committed, and the node goes on from the state the last committed block left): for every validated
+   configuration, every strictly increasing sequence of block times and every pattern of refusals that lets the last block
+   through, the committed history minted the integer part of the schedule's exact cumulative emission at the last block time
+   — the same total as a node whose bank refused nothing: a refused call neither loses an amount nor has it emitted twice *)
+Theorem C02_refused_bank_calls_lose_nothing_and_emit_nothing_twice :
+  forall p g bs Tl d T,
+  params_valid p = true -> periods_sane_from (mp_start p) (mp_minters p) -> mp_denom_ok p = true -> 0 <= mp_start p ->
+  match mp_minters p with cur :: _ => s_seq g = m_seq cur | [] => True end -> s_minted g = 0 -> s_rem_prev g = 0 ->
+  s_last g <= Tl -> increasing Tl (map fst bs) -> Forall (fun t => t <= MAXI64) (map fst bs) -> bs <> [] -> last bs d = (T, false) ->
+  exists st' st'',
+    run_node p g bs = Ok ((if T <? mp_start p then 0 else dec_trunc_int (exact_sum (mp_start p) (mp_minters p) T)), st') /\
+    run_blocks p g (map fst bs) = Ok ((if T <? mp_start p then 0 else dec_trunc_int (exact_sum (mp_start p) (mp_minters p) T)), st'').
+Proof.
+  intros p g bs Tl d T Hv Hs Hd H0 Hg1 Hg2 Hg3 H1 H2 H3 H4 H5.
+  exact (refused_calls_made_up_by_the_next_block p (valid_chain _ _ _ Hv Hs) Hd H0 g Hg1 Hg2 Hg3 bs Tl d T H1 H2 H3 H4 H5).
+Qed.
+Print Assumptions C02_refused_bank_calls_lose_nothing_and_emit_nothing_twice.
+
+(* the block that Mint leaves without reaching the bank changed nothing, so a refusal nobody noticed and one that stopped the
+   block leave the same committed state (this is what makes [node_block] right for both) *)
+Theorem C02_block_that_does_not_reach_the_bank_changes_nothing :
+  forall p st now a st' h, mint p st now = Ok (a, st', h) -> s_last st' <> now -> a = 0 /\ st' = st /\ h = [].
+Proof. exact unnoticed_refusal_changes_nothing. Qed.
+Print Assumptions C02_block_that_does_not_reach_the_bank_changes_nothing.
+
+(* non-vacuity: the example schedule with the block at 999 s refused: the last block makes up for it (700 = 699 + 1) *)
+Example C02_refused_example :
+  let p := {| mp_denom_ok := true; mp_start := 0;
+              mp_minters := [{| m_seq := 1; m_end := Some (1000 * 1000000000); m_cfg := CLinear 1000 |};
+                             {| m_seq := 2; m_end := None; m_cfg := CNone |}] |} in
+  let g := {| s_seq := 1; s_minted := 0; s_rem := 0; s_rem_prev := 0; s_last := 0 |} in
+  let bs := [(300500000000, false); (999000000000, true); (1500000000000, false)] in
+  increasing 0 (map fst bs) /\ last bs (0, true) = (1500000000000, false) /\
+  match node_block p g (300500000000, false) with
+  | Ok (a1, s1) => match node_block p s1 (999000000000, true) with
+     | Ok (a2, s2) => match node_block p s2 (1500000000000, false) with
+        | Ok (a3, s3) => [a1; a2; a3] = [300; 0; 700] /\ s_seq s3 = 2
+        | _ => False end
+     | _ => False end
+  | _ => False end /\
+  match run_node p g bs with Ok (tot, _) => tot = 1000 | _ => False end.
+Proof. vm_compute. repeat split; reflexivity. Qed.
